@@ -27,6 +27,8 @@ pub const E1: &[&str] = &[
     "<A as T<fn(B) -> C, D>>::X", "f::<A, B>::<C, D>()", "<A as T<B, C>>::f::<D, E>()",
     // a `>` / `>>` operator followed by a global path: after `a < b,` or `a << 2,` the pair must not read as `<..>::` (h5)
     "c > ::core::primitive::u8::MIN", "8u32 >> ::core::primitive::u32::MIN", "1u32 << 2",
+    // a struct literal outside any delimiter together with a construct that needs the expression grammar to be kept in one piece
+    "S { a: 1, b: 2 }.a as M<K, V>", "S { a: x as M<K, V>, b: 2 }", "S { a: 1, b: 2 }.a | c", "if a { S { a: 1, b: 2 } } else { d }.a as M<K, V>",
 ];
 
 /// one-level contexts for E2; `@` is the hole
